@@ -11,6 +11,8 @@ Modelling decisions
 * An invalid action cannot solve the board (it either overwrites a filled cell, leaving the empty
   cell that made the state non-terminal, or repeats a digit), so its reward is 0 (C05).  The docs
   do not promise an untouched board on an invalid action; C05 checks LAST and reward 0 only.
+* C04b `check_reaction`: a masked-out action must end the episode at once; a masked-in action may
+  end it only when no legal action remains on the new board.
 * C06 `check_complete`: an episode of legal moves may end in a documented dead end; then cells stay
   empty, no legal action may exist and the reward must be 0.  When it ends with a full board, that
   board must be a valid solution and the reward 1.
